@@ -1432,11 +1432,15 @@ func main() {
 			w.Count("corpus:with-field-over-16KiB")
 		}
 		big := cf.n >= faultOnlyFrom || cf.faultOnly
-		if !big {
+		// HC08_ONLY=pool (mutation-testing aid): only the pool-pressure classes
+		onlyPool := os.Getenv("HC08_ONLY") == "pool"
+		if !big && !onlyPool {
 			d.exploreSeal(cr.Fork(), ci, c, d.newDir(), true, 0, nil)
 		}
-		d.faults(cr.Fork(), ci, c)
-		if !big {
+		if !onlyPool {
+			d.faults(cr.Fork(), ci, c)
+		}
+		if !big && !onlyPool {
 			// plan of this corpus for the limit runs: from a fresh traced seal
 			dir := d.newDir()
 			if s, callErr, err := tracedSeal(dir, c, true, storectl.Req{Op: "seal"}); err == nil && callErr == nil && s.makePlan(c.Skip) == nil {
@@ -1450,7 +1454,9 @@ func main() {
 			d.poolPressure(cr.Fork(), ci, c)
 		}
 	}
-	d.bigLIDs(r.Fork())
+	if os.Getenv("HC08_ONLY") != "pool" {
+		d.bigLIDs(r.Fork())
+	}
 	if len(d.herr) > 0 {
 		// machinery trouble (strace log not understood, child could not be started ...): not a verdict
 		for _, e := range d.herr {
